@@ -152,7 +152,7 @@ def prelude(t, nodes, rng):
             elif r < 0.85:
                 tgt = rng.choice(live + [t])
                 n.move_to(tgt)
-            elif r < 0.93:
+            elif r < 0.93 or not __debug__:  # (under `python -O` the refusals that are assert statements do not exist)
                 n.add(rng.choice(STR_ALPH + [1, 2]))
             else:
                 # refused calls must not leave anything behind that a lookup could find
@@ -469,6 +469,9 @@ def shards(tier, seed):
            for i in range(NSHARDS)]
     out += [{"name": f"rand{i}", "kind": "rand", "i": i, "count": 20 if tier == "quick" else 3000,
              "budget_s": 60 if tier == "quick" else 3600} for i in range(NSHARDS)]
+    # the random cases once more under `python -O` (lookups must not depend on side effects of assert statements)
+    out += [{"name": f"opt{i}", "kind": "rand", "i": 200 + i, "count": 20 if tier == "quick" else 800, "pyopt": True,
+             "budget_s": 60 if tier == "quick" else 1800} for i in range(2)]
     return out
 
 
@@ -499,8 +502,8 @@ def run_shard(spec, res):
         rng = rng_for(seed, "c09-rand", spec["i"])
         for j in range(spec["count"]):
             f = gen.random_forest(rng, rng.randint(6, 16))
-            run_case({"f": gen.code(f), "flavour": rng.choice(FLAVOURS), "seed": rng.randrange(10**6), "prelude": rng.random() < 0.5, "hook": rng.random() < 0.3,
-                      "ext": rng.random() < 0.3, "typed": rng.random() < 0.25}, res)
+            run_case({"f": gen.code(f), "flavour": rng.choice(FLAVOURS), "seed": rng.randrange(10**6), "prelude": rng.random() < (0.9 if spec.get("pyopt") else 0.5),
+                      "hook": rng.random() < 0.3, "ext": rng.random() < 0.3, "typed": rng.random() < 0.25, **({"pyopt": True} if spec.get("pyopt") else {})}, res)
             if res.expired():
                 break
 
